@@ -200,6 +200,61 @@ theorem Exact_min (xs : List ℚ) (a : Option ℚ) :
       have := (h2 h).2
       simp at this
 
+/-- **max, exact**: after a non-empty sequence the generated accumulator holds an element of the sequence that is
+an upper bound of it -/
+theorem Exact_max (xs : List ℚ) (a : Option ℚ) :
+    ∃ r, (xs.map NVal.num).foldlM (Gen.max_accumulate idKey) (encO a) = .ok (encO r) ∧
+      (∀ m, r = some m → (m ∈ xs ∨ a = some m) ∧ (∀ x ∈ xs, x ≤ m) ∧ (∀ b, a = some b → b ≤ m)) ∧
+      (r = Option.none → xs = [] ∧ a = Option.none) := by
+  induction xs generalizing a with
+  | nil =>
+    refine ⟨a, by simp [pure, Except.pure], ?_, ?_⟩
+    · intro m hm; subst hm; simp
+    · intro h; simp [h]
+  | cons x xs ih =>
+    obtain ⟨r, hr, h1, h2⟩ := ih (some (match a with | Option.none => x | Option.some m => if m < x then x else m))
+    refine ⟨r, by simp only [List.map_cons, List.foldlM_cons, max_step, okb, hr], ?_, ?_⟩
+    · intro m hm
+      obtain ⟨hmem, hle, hb⟩ := h1 m hm
+      have hb' := hb _ rfl
+      cases a with
+      | none =>
+        simp only at hb' hmem
+        refine ⟨?_, ?_, by simp⟩
+        · rcases hmem with h | h
+          · exact Or.inl (List.mem_cons_of_mem _ h)
+          · left; simp at h; simp [h]
+        · intro y hy
+          rcases List.mem_cons.mp hy with h | h
+          · rw [h]; exact hb'
+          · exact hle y h
+      | some b =>
+        simp only at hb' hmem
+        by_cases hxb : b < x
+        · simp only [hxb, if_true] at hb' hmem
+          refine ⟨?_, ?_, ?_⟩
+          · rcases hmem with h | h
+            · exact Or.inl (List.mem_cons_of_mem _ h)
+            · left; simp at h; simp [h]
+          · intro y hy
+            rcases List.mem_cons.mp hy with h | h
+            · rw [h]; exact hb'
+            · exact hle y h
+          · intro b' hb2; simp at hb2; subst hb2; linarith
+        · simp only [hxb, if_false] at hb' hmem
+          refine ⟨?_, ?_, ?_⟩
+          · rcases hmem with h | h
+            · exact Or.inl (List.mem_cons_of_mem _ h)
+            · right; simpa using h
+          · intro y hy
+            rcases List.mem_cons.mp hy with h | h
+            · rw [h]; have := not_lt.mp hxb; linarith
+            · exact hle y h
+          · intro b' hb2; simp at hb2; subst hb2; exact hb'
+    · intro h
+      have := (h2 h).2
+      simp at this
+
 /-! ## formal (two-pass) variance -/
 
 @[simp] theorem nlst (l : List NVal) : (PyAlg.lst l : NVal) = .lst l := rfl
